@@ -70,8 +70,8 @@ def gen_particles(r, D, H, kind, n):
         return out
     if kind == "dense":
         cells = list(itertools.product(range(lim), repeat=D))
-        if len(cells) > 600:
-            cells = r.sample(cells, 600)
+        if len(cells) > 150:
+            cells = r.sample(cells, 150)
         return cells if n <= len(cells) else cells + [r.choice(cells) for _ in range(n - len(cells))]
     if kind == "faces":
         out = []
